@@ -225,7 +225,7 @@ Proof. unfold upcast_arr. destruct (dtype_eqb (a_dt a) DF16); reflexivity. Qed.
 
 Lemma wf_stored n kv : encodable kv -> wf_prop n (snd kv) -> np_prop (snd kv) -> wf_tree (snd (stored kv)) = true.
 Proof. intros [pm [enc [Hpm Henc]]] [Hv Hm] [Nv Nm]. unfold stored. cbn [snd]. rewrite Henc. destruct enc as [[v m] d].
-  unfold create_props_metadata in Hpm. unfold encode_prop in Henc.
+  apply cpm_core_of_ok in Hpm; unfold cpm_core in Hpm. unfold encode_prop in Henc.
   destruct (snd kv) as [vals miss]. unfold upcast_prop in *. cbn [p_vals p_missing] in *.
   assert (Hmiss : match miss with Some x => wf_arr x && storable (a_dt x) = true | None => True end).
   { destruct miss as [x|]; [|exact I]. cbn in Hm. destruct Hm as [Hdt _]. rewrite Nm, Hdt. reflexivity. }
